@@ -21,6 +21,10 @@ static void gen_solve(const GenCtx &ctx, Case &c, int viewpct) {
     if (g::coin(1, 2)) std::swap(m, n);
     w = std::min(w, 130);
   }
+  if (g::extreme_shape(ctx, m, n, 60)) {  // tall only: the padded system is max(m,n) x n in the model
+    if (m < n) std::swap(m, n);
+    w = std::min(w, 70);
+  }
   c.set("m", m).set("n", n).set("w", w).set("cutoff", g::cutoff());
   g::rankpat(c, "A", m, n);
   g::place(c, "A", viewpct);
@@ -108,6 +112,13 @@ static void gen_kernel(const GenCtx &ctx, Case &c, int viewpct) {
   std::vector<int> thr = {64, 128, 256};
   int m = g::dim(capv, thr), n = g::dim(capv, thr);
   if (g::coin(1, 6)) g::ple_recursive_shape(ctx, m, n);  // the factorisation underneath enters its block-recursive branch
+  {  // tall only: the kernel is n x (n - r), so very many columns are not affordable for the oracle
+    int a = m, b = n;
+    if (g::extreme_shape(ctx, a, b, 60)) {
+      m = std::max(a, b);
+      n = std::min(a, b);
+    }
+  }
   c.set("m", m).set("n", n).set("cutoff", g::cutoff());
   g::rankpat(c, "A", m, n);
   g::place(c, "A", viewpct);
